@@ -1,4 +1,5 @@
 import enum
+from copy import deepcopy
 import logging
 from collections import OrderedDict
 from typing import Union
@@ -221,7 +222,8 @@ def _generate_schema_for_fields_internal(
                 default_val = default_raw() if callable(default_raw) else default_raw
                 if isinstance(default_val, enum.Enum):
                     default_val = default_val.name
-                sub_schema["default"] = default_val
+                # the document must not contain the field's own (mutable) default object
+                sub_schema["default"] = deepcopy(default_val)
                 if mapped_key not in required:
                     required.append(mapped_key)
             properties[mapped_key] = sub_schema
